@@ -53,12 +53,13 @@ func init() {
 				sc.Sub = "bare"
 			}
 			genChain(g, sc, n, nvalues(script), g.Pick("sync", "async"), noHotNoAux)
+			sc.SetInt("raw", g.Intn(2))
 			return sc
 		},
 		Run: func(e *Env) {
 			o, srcs := e.Pipeline()
 			rec := e.NewRec("o")
-			h := e.Subscribe(o, rec.Observer(), nil)
+			h := e.Subscribe(o, rec.Obs(), nil)
 			e.Settle()
 			FeedAll(srcs)
 			e.SettleFor(300 * Unit)
@@ -90,12 +91,13 @@ func init() {
 				sc.Sub = ctor + "-bare"
 			}
 			genChain(g, sc, n, nvalues(script), "sync", noHotNoAux)
+			sc.SetInt("raw", g.Intn(2))
 			return sc
 		},
 		Run: func(e *Env) {
 			o, srcs := e.Pipeline()
 			rec := e.NewRec("o")
-			e.Subscribe(o, rec.Observer(), nil)
+			e.Subscribe(o, rec.Obs(), nil)
 			e.SettleFor(300 * Unit)
 			checkGrammar(e, rec)
 			if len(e.Sc.Stages) == 0 {
@@ -117,6 +119,7 @@ func init() {
 			sc.Sources = []SrcSpec{{Mode: "hot", Producers: g.Range(1, 4), Script: genIllegalScript(g, 10)}}
 			n := g.PickInt(0, 0, 0, 1, 2)
 			genChain(g, sc, n, 4, "sync", noHotNoAux)
+			sc.SetInt("raw", g.Intn(2))
 			return sc
 		},
 		Run: func(e *Env) {
@@ -142,14 +145,14 @@ func init() {
 			for i := 0; i < nobs; i++ {
 				rec := e.NewRec(fmt.Sprintf("o%d", i))
 				recs = append(recs, rec)
-				e.Subscribe(e.BuildChain(s.Obs(), sc.Stages, auxOf), rec.Observer(), nil)
+				e.Subscribe(e.BuildChain(s.Obs(), sc.Stages, auxOf), rec.Obs(), nil)
 			}
 			e.Settle()
 			s.Feed()
 			if sc.Int("late", 0) == 1 && sc.Sub != "unicast" {
 				rec := e.NewRec("late")
 				recs = append(recs, rec)
-				e.Subscribe(e.BuildChain(s.Obs(), sc.Stages, auxOf), rec.Observer(), nil)
+				e.Subscribe(e.BuildChain(s.Obs(), sc.Stages, auxOf), rec.Obs(), nil)
 			}
 			e.SettleFor(300 * Unit)
 			for _, r := range recs {
